@@ -243,7 +243,36 @@ func c18Prop(c *sim.Case) {
 	nt := false
 	steps := 1 + sim.Pick(c, "nsteps", 5)
 	for i := 0; i < steps; i++ {
-		switch sim.Pick(c, "attack", 6) {
+		switch sim.Weighted(c, "attack", 4, 4, 4, 4, 4, 4, 1) {
+		case 6: // B's own session outlives its ID token: the refresh must go to B's provider with B's credentials
+			old := B.idp.IDTTL
+			B.idp.IDTTL = time.Second
+			sidB := w.login(B, "dave")
+			B.idp.IDTTL = old
+			if sidB == "" {
+				c.Violation("login-failed", "login through filter %s failed: %s", B.name, w.why)
+			}
+			createdBy[sidB] = B
+			from := B.idp.LedgerLen()
+			fromA := A.idp.LedgerLen()
+			time.Sleep(2100 * time.Millisecond)
+			r := w.check(B, "/app", B.cookieName()+"="+sidB)
+			c.Logf("B's session after its ID token expired -> %v", r)
+			calls := B.idp.Calls(from)
+			if len(A.idp.Calls(fromA)) > 0 {
+				c.Violation("refresh-at-foreign-provider", "a refresh of a session of filter %s was sent to %s's provider", B.name, A.name)
+			}
+			if len(calls) != 1 || calls[0].Grant != "refresh_token" || !calls[0].Accepted {
+				why := "no refresh request reached its provider"
+				if len(calls) > 0 {
+					why = fmt.Sprintf("its provider saw grant=%s accepted=%v reject=%q client_id=%q", calls[0].Grant, calls[0].Accepted, calls[0].Reject, calls[0].FormClientID)
+				}
+				c.Violation("refresh-with-foreign-credentials", "refresh of a session of filter %s: %s", B.name, why)
+			}
+			judge("B's refreshed session", r, sidB)
+			if !r.OK {
+				c.Violation("own-session-not-honoured", "filter %s does not honour its own session after a successful refresh: %v", B.name, r)
+			}
 		case 5: // a token signed with A's provider key arrives through B's token endpoint: B must verify with ITS key set
 			keyA := A.idp.SignKey
 			B.idp.Push(&sim.Behaviour{Name: "signed-with-other-filters-key", Mutate: func(p *sim.IdP, honest string, cl map[string]any, _ *sim.TokenCall) string {
@@ -443,6 +472,6 @@ func TestC18(t *testing.T) {
 		return
 	}
 	r.CheckKnown(parts)
-	r.Rapid("isolation", r.N(800, 20000), c18Prop)
+	r.Rapid("isolation", r.N(480, 12000), c18Prop)
 	r.Rapid("timeouts", r.N(8, 120), c18Timeouts)
 }
